@@ -31,6 +31,10 @@ def iso_file(serial, level, size, lead, salt=0, version=1, cap=None):
     core = p + b36(serial)
     if level == 1:
         name_len, ext_len = [(4, 0), (6, 2), (8, 3), (8, 0), (0, 3)][size % 5]
+        if size % 5 in (0, 1):
+            # vary record lengths finely so that directory sectors get filled to every boundary
+            name_len = 4 + (salt // 3) % 5
+            ext_len = (salt // 17) % 4
         if size % 5 == 4:
             # name empty: the serial must live in the extension (3 chars exactly)
             return '.%s;%d' % (b36(serial), version)
@@ -40,6 +44,8 @@ def iso_file(serial, level, size, lead, salt=0, version=1, cap=None):
         total = [6, 14, 30, 30, 12][size % 5]
         if level == 4:
             total = [6, 20, 100, 180, 12][size % 5]
+        if size % 5 in (0, 1):
+            total += (salt // 3) % 9          # fine-grained record lengths (sector-filling boundaries)
         if cap is not None:
             total = min(total, cap)
         alpha = D1 if level < 4 else D1 + L4EXTRA
@@ -81,6 +87,8 @@ def rr_name(serial, size, lead, salt=0):
     alpha = 'abcdefghijklmnopqrstuvwxyzABCDEFGHIJKLMNOPQRSTUVWXYZ0123456789._- '
     p = alpha[lead % 62]
     n = [5, 12, 20, 100, 180, 249, 250, 251, 400, 600, 1100][size % 11]
+    if size % 11 in (1, 2, 3, 4, 8):
+        n += (salt // 5) % 41                 # fine-grained continuation-area lengths (block-filling boundaries)
     s = (p + b36(serial).lower() + _fill(alpha, n, salt))[:n]
     if salt % 5 == 4 and n >= 12:
         s = s[:6] + UNI_BMP[salt % len(UNI_BMP)] + s[7:]
